@@ -336,7 +336,10 @@ def write_world(dirpath: Path | str, spec: dict[str, Any]) -> dict[str, Any]:
     files = []
     start = 0
     prefix = spec.get("file_prefix", "f_")
+    pack_all = pack
+    per_file = spec.get("pack_per_file")
     for fi, cnt in enumerate(counts):
+        pack = dict(pack_all, **per_file[fi % len(per_file)]) if per_file else pack_all
         fname = d / f"{prefix}{fi:03d}.nc"
         with Dataset(fname, "w", format="NETCDF4") as nc:
             if spec.get("grid_in_forcing", True):
